@@ -91,6 +91,10 @@ def _setup(ctx, kind, subregions=True, nvmax=3, **kw):
     kwf = {"vdims": gen.rand_vdims(rng, nvdim), "unit": gen.pick(rng, [None, "A/m"])}
     if dtype == "complex":
         kwf["dtype"] = complex
+    elif dtype == "int" and rng.random() < 0.6:
+        # a declared integer field holds whole numbers that a float64 need not hold
+        kwf["dtype"] = gen.pick(rng, [int, np.int64])
+        arr = arr + gen.pick(rng, [0, 2**53 + 1, -(2**60) - 1])
     f = gen.via_history(None, df.Field(mesh, nvdim=nvdim, value=arr.copy(), valid=valid.copy(), **kwf))
     A = np.array(f.array, copy=True)   # as stored (int -> float conversion is C02's subject)
     info = {"ndim": spec.nd, "n": spec.n, "nvdim": nvdim, "dtype": dtype,
@@ -199,8 +203,12 @@ def _check_result(ctx, pre, f, A, valid, res, spec, lo, hi, info, removed=None, 
         return
     exp_a = _block(A, lo, hi, removed, layer)
     exp_v = _block(valid, lo, hi, removed, layer)
-    ok_a = res.array.shape == exp_a.shape and np.array_equal(res.array, exp_a)
+    # the same numbers in the same representation (an int64 beyond 2**53 is not a float64;
+    # numpy would compare the two as equal after converting both to float)
+    ok_a = (res.array.shape == exp_a.shape and res.array.dtype == exp_a.dtype
+            and np.array_equal(res.array, exp_a))
     ctx.check(pre + ".block", ok_a and res.nvdim == f.nvdim,
+              dtype_got=str(res.array.dtype), dtype_expected=str(exp_a.dtype),
               shape_got=res.array.shape, shape_expected=exp_a.shape,
               expected_layers=[lo, hi], **info)
     ctx.check(pre + ".validity", res.valid.shape == exp_v.shape and np.array_equal(res.valid, exp_v),
@@ -234,6 +242,13 @@ def plane(ctx):
             cands, where = [nax - 1 if hi_face else 0], "region_face"
         if spec.int_corners and float(x).is_integer() and rng.random() < 0.5:
             x = int(x)
+        elif (spec.int_corners and where == "centre" and rng.random() < 0.5
+              and float(np.float32(x)) == float(x)):
+            # a single-precision coordinate (half-integers are exact in float32) on a mesh
+            # whose corners were given as Python integers
+            x = gen.pick(rng, [np.float32, np.float16])(x) if float(np.float16(x)) == float(x) \
+                else np.float32(x)
+            where = "centre_float32"
     else:
         x, where = None, "central"
         cands = [(nax - 1) // 2] if nax % 2 else [nax // 2 - 1, nax // 2]
